@@ -6,6 +6,8 @@ spec: storage/CheckerSpec (write paths x seeded corruptions x copies).
 import contextlib
 import io
 import shutil
+import json
+import zlib
 
 import numpy as np
 
@@ -95,7 +97,22 @@ def produce(path_kind, d, content, fl="fl1"):
     return out
 
 
-def corrupt(path, c, d):
+#: mandatory metadata (documented: "keys that must be present for every
+#: measurement" / "for fluorescence measurements"), without the keys other
+#: corruption classes use and those the writer derives from the data
+MANDATORY = ["experiment:date", "experiment:run index", "experiment:sample",
+             "experiment:time", "imaging:flash device",
+             "imaging:flash duration", "imaging:frame rate",
+             "imaging:pixel size", "imaging:roi position x",
+             "imaging:roi position y", "setup:channel width",
+             "setup:chip region", "setup:flow rate", "setup:medium"]
+MANDATORY_FL = ["fluorescence:bit depth", "fluorescence:channels installed",
+                "fluorescence:lasers installed", "fluorescence:sample rate",
+                "fluorescence:signal max", "fluorescence:signal min",
+                "fluorescence:trace median"]
+
+
+def corrupt(path, c, d, salt=0, others=()):
     import h5py
     with h5py.File(path, "a") as h5:
         ev = h5["events"]
@@ -112,7 +129,18 @@ def corrupt(path, c, d):
             ev.create_dataset("peter", data=np.arange(len(ev["deform"]),
                                                       dtype=float))
         elif c == "missing":
-            del h5.attrs["setup:channel width"]
+            # (one of the mandatory keys, in turn; together with a zero
+            # channel width always the channel width)
+            # (not a key another corruption of the same file is about)
+            taken = {"pixneg": "imaging:pixel size",
+                     "flowzero": "setup:flow rate",
+                     "chwzero": "setup:channel width"}
+            cand = [k for k in MANDATORY
+                    if k not in {taken.get(o) for o in others}]
+            key = cand[salt % len(cand)]
+            if key not in h5.attrs:
+                key = "setup:channel width"
+            del h5.attrs[key]
         elif c == "index":
             if "index" in ev:
                 ev["index"][:] = ev["index"][:][::-1]
@@ -133,7 +161,10 @@ def corrupt(path, c, d):
         elif c == "nopower":
             del h5.attrs["fluorescence:laser 1 power"]
         elif c == "flmissing":
-            del h5.attrs["fluorescence:sample rate"]
+            key = MANDATORY_FL[salt % len(MANDATORY_FL)]
+            if key not in h5.attrs:
+                key = "fluorescence:sample rate"
+            del h5.attrs[key]
         elif c == "chcount":
             h5.attrs["fluorescence:channel count"] = 3
         elif c == "chcount0":
@@ -172,7 +203,8 @@ def _case(job):
             return dict(case), [("write path %s raises %s" % (
                 case["path"], type(exc).__name__), repr(exc)[:200])]
         for c in sorted(case["corr"]):
-            corrupt(p, c, d)
+            corrupt(p, c, d, salt=zlib.crc32(json.dumps(
+                case, sort_keys=True).encode()), others=case["corr"])
         try:
             viol, alerts, info = check_dataset(p)
         except BaseException as exc:
